@@ -20,7 +20,13 @@ var log = logging.Logger("autoconf")
 
 // writeOwnerOnlyFile writes data to a file with owner-only permissions (0600)
 func writeOwnerOnlyFile(filename string, data []byte) error {
-	return os.WriteFile(filename, data, filePermOwnerReadWrite)
+	// Write to a temporary name (not matched by listCacheFiles) and rename, so that
+	// an interrupted write never leaves a truncated file under the final name.
+	tmp := filename + ".tmp"
+	if err := os.WriteFile(tmp, data, filePermOwnerReadWrite); err != nil {
+		return err
+	}
+	return os.Rename(tmp, filename)
 }
 
 const (
